@@ -254,9 +254,30 @@ pub fn run(ctx: &mut Ctx) -> Result<(), Violation> {
             }
         }
     }
-    ctx.rule = "proptest cases (with shrinking): password 0..=128 bytes, t 1..=4, memlimit 8..=64 KiB incl. values that are not a multiple of 1024, producer in {dryoc crypto_pwhash_str, dryoc PwHash::hash(config with salt 8..=64, hash 16..=128).to_string(), libsodium crypto_pwhash_str (argon2id), libsodium crypto_pwhash_str_alg (argon2i), libsodium internal argon2{i,id}_hash_encoded (salt 8..=64, hash 16..=128)}, 1..4 needs-rehash queries each (equal costs, memlimit within the same KiB, t differs only, m differs only, one byte below the KiB, unrelated). Oracle: (a) strict harness parser decodes the string, fields equal the costs/lengths used, and Argon2 recomputed by the reference from exactly those fields equals the hash field; (b) libsodium crypto_pwhash_str_verify / argon2_verify accept the right password and reject wrong ones, dryoc crypto_pwhash_str_verify and PwHash::from_string(..).verify likewise; (c) from_string(s).to_string() == s; (d) needs_rehash == (ops != t or mem/1024 != m) == libsodium's answer. Non-trivial: string from libsodium, or Argon2i, or non-default salt/hash length, or a query where exactly one cost differs; distinct = hash(case).".into();
+    ctx.rule = "proptest cases (with shrinking): password 0..=128 bytes, t 1..=4, memlimit 8..=64 KiB incl. values that are not a multiple of 1024, producer in {dryoc crypto_pwhash_str, dryoc PwHash::hash(config with salt 8..=64, hash 16..=128).to_string(), libsodium crypto_pwhash_str (argon2id), libsodium crypto_pwhash_str_alg (argon2i), libsodium internal argon2{i,id}_hash_encoded (salt 8..=64, hash 16..=128)}, 1..4 needs-rehash queries each (equal costs, memlimit within the same KiB, t differs only, m differs only, one byte below the KiB, unrelated). Plus a deterministic pass with t in {255..258, 511..513, 1025} at 8 KiB for every producer. Oracle: (a) strict harness parser decodes the string, fields equal the costs/lengths used, and Argon2 recomputed by the reference from exactly those fields equals the hash field; (b) libsodium crypto_pwhash_str_verify / argon2_verify accept the right password and reject wrong ones, dryoc crypto_pwhash_str_verify and PwHash::from_string(..).verify likewise; (c) from_string(s).to_string() == s; (d) needs_rehash == (ops != t or mem/1024 != m) == libsodium's answer. Non-trivial: string from libsodium, or Argon2i, or non-default salt/hash length, or a query where exactly one cost differs; distinct = hash(case).".into();
     ctx.assumptions = vec!["libsodium's encoder/verifier (public and internal) is the interop reference".into(), "cost parameters kept small (m <= 64 KiB, t <= 4)".into()];
     let seed = ctx.seed;
+    // large pass counts at minimal memory (neighbourhoods of 2^8, 2^9, 2^10): strings made by either side with
+    // t there must still interoperate
+    {
+        let mut big: Vec<Case> = vec![];
+        for (i, t) in [255u64, 256, 257, 258, 511, 512, 513, 1025].into_iter().enumerate() {
+            for producer in [Producer::DryocStr, Producer::DryocObject, Producer::SodiumStrId, Producer::SodiumStrI, Producer::SodiumEncoded] {
+                for alg in 1..=2 {
+                    if alg == 1 && !matches!(producer, Producer::SodiumEncoded) {
+                        continue;
+                    }
+                    big.push(Case { producer, password: Hex(vec![b'p'; i]), ops: t, mem: 8192, salt_len: 16, hash_len: 32, alg, fill: i as u64, queries: vec![(t, 8192), (t + 1, 8192), (t - 1, 8192), (t % 256, 8192)] });
+                }
+            }
+        }
+        ctx.par_each(&big, |_, c, ev| {
+            ev.eval(1);
+            ev.class("large pass count (t >= 255) at minimal memory");
+            ev.nontrivial(fnv64(&[serde_json::to_string(c).unwrap().as_bytes()]));
+            check(c).map_err(|m| Violation::new("C10", "pwhash-string", m, serde_json::to_value(c).unwrap()))
+        })?;
+    }
     let n = ctx.tier.pick(8000u32, 400_000);
     let shards: Vec<u64> = (0..ctx.threads as u64).collect();
     let per = n / ctx.threads.max(1) as u32 + 1;
